@@ -26,6 +26,12 @@ class Undecided(Exception):
 def _limits(mem_gb):
     def f():
         os.setsid()
+        try:
+            # die with the checker: an interrupted bin/check must not leave solvers behind
+            import ctypes
+            ctypes.CDLL('libc.so.6', use_errno=True).prctl(1, signal.SIGKILL)
+        except Exception:
+            pass
         b = int(mem_gb * (1 << 30))
         resource.setrlimit(resource.RLIMIT_AS, (b, b))
     return f
@@ -103,7 +109,7 @@ def parse_results(path, unit_file_names):
     for r in res:
         loc = r.get('sourceLocation', {})
         f = loc.get('file', '')
-        own = (not f.startswith('<')) and (os.path.basename(f) in unit_file_names or '/src/' in f or f.endswith('.h'))
+        own = (not f.startswith('<')) and (os.path.basename(f) in unit_file_names or '/src/' in f or f.endswith('.h') or f.endswith('spec_inserted.c'))
         cls = classify(r['property'], r.get('description', ''))
         if cls == 'instrumentation':
             own = False
